@@ -5,27 +5,41 @@
 //
 //	reset-ptab <text> <maxL> <maxC>       position tables of the exported position functions
 //	reset-pos  <text> <from> <to> <l> <c> one range conversion and one position lookup
-//	reset <comp("")>                      start a fresh `elvish -lsp` process
+//	reset <comp("")> <homes> <doc table>  start a fresh `elvish -lsp` process
 //	open|change|hover|completion|raw …    one JSON-RPC message to that process
+//
+// A text travels as <hex text> <printable> <completer table>: the parser is the
+// model's own (C01), its unicode.IsPrint parameter is the <printable> field (as
+// in the C01 ops); complete.Complete stays a library parameter.  The reset line
+// carries the other library parameters of hover: getHome for a few user names
+// and the table of documented symbols (docsMap(): namespace, F|V, name, id of
+// the text shown).
 //
 // Ops whose name starts with "reset" begin a new history (the position ops are
 // stateless, so each is a history by itself).
 package c44
 
 import (
+	"crypto/sha256"
 	"encoding/json"
 	"fmt"
 	"os"
 	"path/filepath"
+	"sort"
 	"strconv"
 	"strings"
+	"unicode"
 	"unicode/utf8"
 
 	golsp "pkg.nimblebun.works/go-lsp"
 	"src.elv.sh/pkg/diag"
+	elvpkg "src.elv.sh/pkg"
 	"src.elv.sh/pkg/edit/complete"
+	"src.elv.sh/pkg/elvdoc"
 	"src.elv.sh/pkg/eval"
+	"src.elv.sh/pkg/fsutil"
 	"src.elv.sh/pkg/lsp"
+	"src.elv.sh/pkg/mods/doc"
 	"src.elv.sh/pkg/parse"
 	"src.elv.sh/pkg/prog"
 	"verifharness/common"
@@ -102,6 +116,9 @@ func run(c *common.Ctx) error {
 var symbols = []string{"a", "é", "😀", "\r", "\n"}
 
 var tokens = []string{"echo", "put", "e", "$", "$paths", "$pa", "$!", " ", " ", "\n", "\n", "\r\n", "\r\n", "\r",
+	// documented symbols in the forms hover resolves (namespaces, builtin: prefix, quoted and
+	// concatenated heads, tilde) and near misses
+	"str:join", "$builtin:paths", "builtin:echo", "$edit:prompt", "$str:join", "'ec'ho", "\"put\"", "~", "~/", "$@args", "$nil", "$e:echo", "nop:", "$value-out-indicator", "e:echo", "re:match", "$re:match", "$unknown:x", ":", "$:", "builtin:", "$builtin:",
 	"é", "😀", "世", "[", "]", "{", "}", "(", ")", "'", "\"", "|", "var x = ", "fn f { }", "#c", ";", "~", "*", "a", "ad",
 	"adir/", "&", ">", "if", "use ", "x", "\t", "\\", "^", "=", "nop ",
 	// double-quoted strings with malformed escapes: several parse errors in one string, some
@@ -117,17 +134,93 @@ var rawMethods = []string{"initialize", "initialized", "textDocument/didOpen", "
 
 var pks = []string{"absent", "absent", "null", "obj", "num", "str", "arr"}
 
-func errsField(uri, text string) string {
-	_, err := parse.Parse(parse.Source{Name: uri, Code: text}, parse.Config{})
-	var parts []string
-	for _, e := range parse.UnpackErrors(err) {
-		r := e.Range()
-		parts = append(parts, fmt.Sprintf("%d:%d", r.From, r.To))
+// printable computes the <printable> field of a text: the non-ASCII code
+// points decodable at some byte offset for which unicode.IsPrint holds — the
+// value of the parser model's IsPrint parameter on everything it can ask about
+// (same field as in the C01 ops).
+func printable(src string) string {
+	set := map[rune]bool{}
+	for i := 0; i < len(src); i++ {
+		r, _ := utf8.DecodeRuneInString(src[i:])
+		if r >= 0x80 && unicode.IsPrint(r) {
+			set[r] = true
+		}
 	}
-	if len(parts) == 0 {
+	if len(set) == 0 {
 		return "-"
 	}
+	var l []int
+	for r := range set {
+		l = append(l, int(r))
+	}
+	sort.Ints(l)
+	ss := make([]string, len(l))
+	for i, r := range l {
+		ss[i] = strconv.Itoa(r)
+	}
+	return strings.Join(ss, ",")
+}
+
+// msgID is the canonical form of a parse error message (as in the C01 ops).
+func msgID(m string) string {
+	const p = "unexpected rune "
+	if strings.HasPrefix(m, p) {
+		s, err := strconv.Unquote(m[len(p):])
+		if err == nil {
+			r, _ := utf8.DecodeRuneInString(s)
+			return "U" + strconv.Itoa(int(r))
+		}
+	}
+	return common.Hex(m)
+}
+
+func contentID(markdown string) string {
+	h := sha256.Sum256([]byte(markdown))
+	return fmt.Sprintf("%x", h[:5])
+}
+
+var homeNames = []string{"", "root", "a", "x", "e"}
+
+// homesField: fsutil.GetHome for the user names the generated texts can ask
+// about (any other name is an unknown user on both sides).
+func homesField() string {
+	var parts []string
+	for _, u := range homeNames {
+		h, err := fsutil.GetHome(u)
+		if err != nil {
+			parts = append(parts, common.Hex(u)+":!")
+		} else {
+			parts = append(parts, common.Hex(u)+":"+common.Hex(h))
+		}
+	}
 	return strings.Join(parts, ",")
+}
+
+// docTableField: the documented symbols, extracted the way pkg/mods/doc does
+// (elvdoc.ExtractAllFromFS(pkg.ElvFiles)), in the order doc.Source searches them.
+func docTableField() (string, error) {
+	m, err := elvdoc.ExtractAllFromFS(elvpkg.ElvFiles)
+	if err != nil {
+		return "", err
+	}
+	var nss []string
+	for ns := range m {
+		nss = append(nss, ns)
+	}
+	sort.Strings(nss)
+	var parts []string
+	for _, ns := range nss {
+		for _, e := range m[ns].Fns {
+			parts = append(parts, common.Hex(ns)+":F:"+common.Hex(e.Name)+":"+contentID(e.FullContent()))
+		}
+		for _, e := range m[ns].Vars {
+			parts = append(parts, common.Hex(ns)+":V:"+common.Hex(e.Name)+":"+contentID(e.FullContent()))
+		}
+	}
+	if len(parts) == 0 {
+		return "-", nil
+	}
+	return strings.Join(parts, ","), nil
 }
 
 var compCache = map[string]string{}
@@ -177,6 +270,29 @@ func randText(r *common.Rand, maxTok int) string {
 	var sb strings.Builder
 	for k := r.Range(0, maxTok); k > 0; k-- {
 		sb.WriteString(common.Pick(r, tokens))
+	}
+	return sb.String()
+}
+
+var hoverWords = []string{"echo", "put", "str:join", "builtin:echo", "'ec'ho", "\"put\"", "e:echo", "nop", "x", "~", "~/x",
+	"$paths", "$builtin:paths", "$edit:prompt", "$nil", "$x", "$@args", "re:match", "str:jo", "$str:join", "ech", "é"}
+
+// randHoverText: a few commands whose words are documented symbols (and near
+// misses) in head and argument position, so that hover has something to show —
+// and something it must NOT show (a command name in argument position, a
+// variable name without its $).
+func randHoverText(r *common.Rand) string {
+	var sb strings.Builder
+	for k := r.Range(1, 4); k > 0; k-- {
+		for w := r.Range(1, 3); w > 0; w-- {
+			sb.WriteString(common.Pick(r, hoverWords))
+			if w > 1 {
+				sb.WriteString(common.Pick(r, []string{" ", " ", "  ", "\t"}))
+			}
+		}
+		if k > 1 {
+			sb.WriteString(common.Pick(r, []string{"\n", "\r\n", "; ", " | ", "\r"}))
+		}
 	}
 	return sb.String()
 }
@@ -250,6 +366,11 @@ func gen(c *common.Ctx, depth int, emit func(...string)) {
 	}
 	// -- server histories
 	emptyComp := compField("")
+	homes := homesField()
+	docTab, err := docTableField()
+	if err != nil {
+		panic("elvdoc.ExtractAllFromFS: " + err.Error())
+	}
 	nh := c.Scale(120, 1500)
 	for h := 0; h < nh; h++ {
 		var ops []hop
@@ -263,6 +384,9 @@ func gen(c *common.Ctx, depth int, emit func(...string)) {
 			switch x := r.Intn(100); {
 			case x < 22:
 				t := randText(r, 10)
+				if r.Chance(1, 3) {
+					t = randHoverText(r)
+				}
 				ops = append(ops, hop{kind: "open", id: r.Chance(1, 10), uri: uri, texts: []string{t}})
 				cur[uri] = t
 			case x < 45:
@@ -287,7 +411,7 @@ func gen(c *common.Ctx, depth int, emit func(...string)) {
 					if r.Bool() || j == 1 { // the last text stays short: it may get a completion table
 						ts = append(ts, randText(r, 8))
 					} else {
-						ts = append(ts, strings.Repeat(randText(r, 6)+"\n", r.Range(30, 200)))
+						ts = append(ts, strings.Repeat(randText(r, 6)+"\n", r.Range(30, 120)))
 					}
 				}
 				ops = append(ops, hop{kind: "burst", uri: uri, texts: ts})
@@ -303,7 +427,7 @@ func gen(c *common.Ctx, depth int, emit func(...string)) {
 			}
 		}
 		// which URIs are asked for completions later in the history
-		emit("reset", emptyComp)
+		emit("reset", emptyComp, homes, docTab)
 		for i, o := range ops {
 			needComp := false
 			for _, later := range ops[i+1:] {
@@ -319,7 +443,7 @@ func gen(c *common.Ctx, depth int, emit func(...string)) {
 				if needComp && len(t) < 200 {
 					cf = compField(t)
 				}
-				return []string{common.Hex(t), errsField(o.uri, t), cf}
+				return []string{common.Hex(t), printable(t), cf}
 			}
 			switch o.kind {
 			case "open":
@@ -514,8 +638,14 @@ func showReply(f []string, o obs) string {
 			res := strings.TrimSpace(string(m.Result))
 			method := methodOf(f)
 			switch {
-			case method == "textDocument/hover" && (res == "null" || strings.HasPrefix(res, `{"contents"`)):
-				out = "result:hover"
+			case method == "textDocument/hover" && res == "null":
+				out = "result:hover:null"
+			case method == "textDocument/hover" && strings.HasPrefix(res, `{"contents"`):
+				if md, ok := hoverMarkdown(m.Result); ok {
+					out = "result:hover:" + contentID(md)
+				} else {
+					out = "result:?" + res
+				}
 			case method == "textDocument/completion" && strings.HasPrefix(res, "["):
 				var items []item
 				if err := json.Unmarshal(m.Result, &items); err != nil {
@@ -551,6 +681,20 @@ func showReply(f []string, o obs) string {
 	return out
 }
 
+// hoverMarkdown decodes {"contents":{"kind":"markdown","value":…}}.
+func hoverMarkdown(raw json.RawMessage) (string, bool) {
+	var h struct {
+		Contents struct {
+			Kind  string `json:"kind"`
+			Value string `json:"value"`
+		} `json:"contents"`
+	}
+	if err := json.Unmarshal(raw, &h); err != nil || h.Contents.Kind != "markdown" {
+		return "", false
+	}
+	return h.Contents.Value, true
+}
+
 func showDiags(o obs) string {
 	if len(o.notifs) == 0 {
 		return "nodiag"
@@ -568,7 +712,7 @@ func showDiags(o obs) string {
 		}
 		var rs []string
 		for _, d := range p.Diagnostics {
-			rs = append(rs, showRange(d.Range))
+			rs = append(rs, showRange(d.Range)+"/"+msgID(d.Message))
 		}
 		parts = append(parts, "diag:"+common.Hex(string(p.URI))+":["+strings.Join(rs, ";")+"]")
 	}
@@ -685,6 +829,9 @@ func oracle(sti any, f []string, out string) (string, string) {
 		}
 		if open && f[0] == "completion" {
 			return checkCompletion(o, text, pos{atoi(f[3]), atoi(f[4])})
+		}
+		if open && f[0] == "hover" {
+			return checkHover(o, uri, text, pos{atoi(f[3]), atoi(f[4])})
 		}
 	}
 	return "", ""
@@ -897,6 +1044,113 @@ func checkCompletion(o obs, text string, p pos) (string, string) {
 	return "", ""
 }
 
+// checkHover: when the requested position is exactly the position of a
+// boundary offset, the reply shows the documentation of the symbol the offset
+// is in: of the variable, if the innermost node there is a variable use with a
+// documented name; otherwise of the command, if that node belongs to the head
+// word of a command, the word is made of literal pieces only and names a
+// documented command; otherwise nothing.
+func checkHover(o obs, uri, text string, p pos) (string, string) {
+	dot, ok := specIdx(text, p)
+	if !ok {
+		return "", ""
+	}
+	tree, _ := parse.Parse(parse.Source{Name: uri, Code: text}, parse.Config{})
+	want, why := "", "no symbol at the offset"
+	// innermost node containing dot
+	var n parse.Node = tree.Root
+	inside := true
+	for inside && len(parse.Children(n)) > 0 {
+		inside = false
+		for _, ch := range parse.Children(n) {
+			if r := ch.Range(); r.From <= dot && dot < r.To {
+				n, inside = ch, true
+				break
+			}
+		}
+	}
+	if pr, isPrimary := n.(*parse.Primary); inside && isPrimary {
+		if pr.Type == parse.Variable {
+			if md, err := doc.Source("$" + pr.Value); err == nil {
+				want, why = md, "variable $"+pr.Value
+			}
+		}
+		if want == "" {
+			if in, ok := parse.Parent(pr).(*parse.Indexing); ok {
+				if cn, ok := parse.Parent(in).(*parse.Compound); ok {
+					if fn, ok := parse.Parent(cn).(*parse.Form); ok && fn.Head == cn {
+						if word, ok := literalPrefix(cn, in.To); ok {
+							if md, err := doc.Source(word); err == nil {
+								want, why = md, "command "+word
+							}
+						}
+					}
+				}
+			}
+		}
+	}
+	res := strings.TrimSpace(string(o.reply.Result))
+	got := ""
+	if res != "null" {
+		md, ok := hoverMarkdown(o.reply.Result)
+		if !ok {
+			return "hover-undecodable", res
+		}
+		got = md
+	}
+	if got != want {
+		cls := "hover-content"
+		if strings.Contains(text, "\r\n") {
+			cls = "hover-content-crlf"
+		}
+		return cls, fmt.Sprintf("text %q position %d:%d (offset %d): shown %s, expected %s (%s)", text, p.line, p.char, dot,
+			showDoc(got), showDoc(want), why)
+	}
+	return "", ""
+}
+
+func showDoc(md string) string {
+	if md == "" {
+		return "nothing"
+	}
+	first := strings.SplitN(strings.TrimPrefix(md, "```elvish\n"), "\n", 2)[0]
+	return fmt.Sprintf("doc %s (%q…)", contentID(md), first)
+}
+
+// literalPrefix: the value of the part of a word up to offset upto, when that
+// part consists of barewords and quoted strings only (a leading ~ is expanded).
+func literalPrefix(cn *parse.Compound, upto int) (string, bool) {
+	word, tilde := "", false
+	for _, in := range cn.Indexings {
+		if len(in.Indices) > 0 {
+			return "", false
+		}
+		if in.To > upto {
+			break
+		}
+		switch in.Head.Type {
+		case parse.Tilde:
+			tilde = true
+		case parse.Bareword, parse.SingleQuoted, parse.DoubleQuoted:
+			word += in.Head.Value
+		default:
+			return "", false
+		}
+	}
+	if tilde {
+		user, rest, _ := strings.Cut(word, "/")
+		home, err := fsutil.GetHome(user)
+		if err != nil {
+			return "", false
+		}
+		if len(user) < len(word) {
+			rest = "/" + rest
+		}
+		word = home + rest
+	}
+	return word, true
+}
+
 // ---------------------------------------------------------------- tags
 
 func textTag(s string) string {
@@ -983,6 +1237,9 @@ func tag(f []string, out string) string {
 	res := strings.SplitN(out, " ", 2)[0]
 	if strings.HasPrefix(res, "result:items:") && res != "result:items:0" {
 		res = "result:items:n"
+	}
+	if strings.HasPrefix(res, "result:hover:") && res != "result:hover:null" {
+		res = "result:hover:doc"
 	}
 	d := ""
 	if strings.Contains(out, " diag:") {
